@@ -1,6 +1,8 @@
 import PetgraphModel.Common
 import PetgraphModel.Model.StableGraph
 import PetgraphModel.Spec.StableGraphSpec
+import PetgraphModel.Spec.C02W4Queries
+import PetgraphModel.Model.C02W4Calls
 /-
 C02 driver: runs the mirror model (`SG.State`) and the abstract reference multigraph (`SGSpec.Spec`)
 side by side with the implementation's answers.
@@ -13,6 +15,12 @@ side by side with the implementation's answers.
   unordered endpoints for undirected graphs), a call that answered `err` leaves every dumped observable
   textually unchanged, no valid call panics.  The spec machine advances with the IMPLEMENTATION's
   answers (the index it handed out), never with the mirror model's.
+
+Wave 4: every query of a dump line is computed by the ONE model function `SG.query` (theorem `C02_query_refines`) and judged
+by the executable reference predicate `SGSpec.specQueryB` (theorem `C02_query_judge_iff`: it accepts exactly the answers the
+reference multigraph admits); the panicking variants run through `SG.pstep` and must panic EXACTLY when `Spec.panics` says so
+(`C02_panicking_variants`); `extend_with_edges` must complete iff `extendFits` and a panicking call must leave exactly the
+processed prefix behind (`C02_extend_general`); constructors run through `SG.construct` (`C02_constructors`).
 -/
 namespace PetgraphModel.C02
 open PetgraphModel PetgraphModel.SG PetgraphModel.SGSpec
@@ -87,80 +95,139 @@ def canonTok (directed : Bool) (off : Nat) (t : String) : String :=
 def parseTriples (s : String) : List (Nat × Nat × Int) :=
   (toks s).map fun t => let p := t.splitOn ":"; (natOf (nth p 0), natOf (nth p 1), intOf (nth p 2))
 
-/-! ### the mirror model's dump lines -/
+/-! ### answers of queries as text, and back -/
 
-def mNodes (s : SG.State) : String :=
-  let f := nodeReferences s
-  s!"{showNI f}|{showNI f.reverse}"
+def showRefT (r : ERefT) : String := s!"{r.1}:{r.2.1}:{r.2.2.1}:{r.2.2.2}"
 
-def mEdges (s : SG.State) : String :=
-  let f := edgeReferences s
-  s!"{showERefs f}|{showERefs f.reverse}"
+def showQ : QOut → String
+  | .nat n => toString n
+  | .nats l => showNats l
+  | .nodeRefs l => showNI l
+  | .erefs l => showL (l.map showRefT)
+  | .pairs l => showPairs l
+  | .optInt o => (match o with | some w => toString w | none => "x")
+  | .bool b => if b then "1" else "0"
+  | .optPair o => (match o with | some (a, b) => s!"{a}:{b}" | none => "x")
+  | .optNat o => (match o with | some e => toString e | none => "x")
+  | .optDir o => (match o with | some (e, d) => toString e ++ (if d then "<" else ">") | none => "x")
 
-def mCounts (s : SG.State) : String := s!"{s.nodeCount} {s.edgeCount} {nodeBound s} {edgeBound s} {nodeBound s}"
+def revQ : QOut → QOut
+  | .nats l => .nats l.reverse
+  | .nodeRefs l => .nodeRefs l.reverse
+  | .erefs l => .erefs l.reverse
+  | o => o
 
-def mNidx (s : SG.State) : String :=
-  let f := nodeIndices s
-  s!"{showNats f}|{showNats f.reverse}|{showNats f}"
+/-- the mirror model's answer to a query, as text -/
+def mq (s : SG.State) (q : Query) : String := showF showQ (query s q)
+def mqRev (s : SG.State) (q : Query) : String := showF (fun o => showQ (revQ o)) (query s q)
 
-def mEidx (s : SG.State) : String :=
-  let f := edgeIndices s
-  s!"{showNats f}|{showNats f.reverse}"
+def pList {α : Type} (f : String → Option α) (s : String) : Option (List α) := (toks s).mapM f
+
+def pRef (t : String) : Option ERefT :=
+  match t.splitOn ":" with
+  | [e, a, b, w] => match e.toNat?, a.toNat?, b.toNat?, w.toInt? with
+    | some e, some a, some b, some w => some (e, a, b, w)
+    | _, _, _, _ => none
+  | _ => none
+
+def pPair (t : String) : Option (Nat × Nat) :=
+  match t.splitOn ":" with
+  | [a, b] => match a.toNat?, b.toNat? with
+    | some a, some b => some (a, b)
+    | _, _ => none
+  | _ => none
+
+def pNI (t : String) : Option (Nat × Int) :=
+  match t.splitOn ":" with
+  | [a, b] => match a.toNat?, b.toInt? with
+    | some a, some b => some (a, b)
+    | _, _ => none
+  | _ => none
+
+/-- parse the implementation's answer to query `q` (strict: anything unexpected is `none`) -/
+def parseQ (q : Query) (t : String) : Option QOut :=
+  match q with
+  | .nodeCount | .edgeCount | .nodeBound | .edgeBound => t.toNat?.map .nat
+  | .nodeIndices | .edgeIndices | .neighbors _ | .neighborsDirected _ _ | .neighborsUndirected _ | .externals _ =>
+    (pList String.toNat? t).map .nats
+  | .nodeReferences => (pList pNI t).map .nodeRefs
+  | .edgeReferences | .edges _ | .edgesDirected _ _ | .edgesConnecting _ _ => (pList pRef t).map .erefs
+  | .walker _ _ => (pList pPair t).map .pairs
+  | .nodeWeight _ | .edgeWeight _ => if t == "x" then some (.optInt none) else t.toInt?.map fun w => .optInt (some w)
+  | .containsNode _ | .containsEdge _ _ => if t == "1" then some (.bool true) else if t == "0" then some (.bool false) else none
+  | .edgeEndpoints _ => if t == "x" then some (.optPair none) else (pPair t).map fun p => .optPair (some p)
+  | .findEdge _ _ => if t == "x" then some (.optNat none) else t.toNat?.map fun e => .optNat (some e)
+  | .findEdgeUndirected _ _ =>
+    if t == "x" then some (.optDir none)
+    else
+      let body := (t.dropEnd 1).toString
+      if t.endsWith ">" then body.toNat?.map fun e => .optDir (some (e, false))
+      else if t.endsWith "<" then body.toNat?.map fun e => .optDir (some (e, true))
+      else none
+
+/-- **the spec-level judge of a query answer**: the implementation's text `t` must parse to an answer that the reference
+multigraph admits (`specQueryB`, proved equivalent to `SpecQuery`) -/
+def jq (sp : Spec) (name : String) (q : Query) (t : String) : Option String :=
+  match parseQ q t with
+  | none => some s!"{name}: unparsable answer [{t}]"
+  | some o =>
+    if specQueryB sp q o then none
+    else some s!"{name} = [{t}]; the reference admits [{showQ (specAnswer sp q)}] (iterators up to order)"
+
+def firstWhy (l : List (Option String)) : Option String := l.findSome? id
+
+/-! ### the mirror model's dump lines (all through `SG.query`) -/
+
+def mNodes (s : SG.State) : String := s!"{mq s .nodeReferences}|{mqRev s .nodeReferences}"
+def mEdges (s : SG.State) : String := s!"{mq s .edgeReferences}|{mqRev s .edgeReferences}"
+
+def mCounts (s : SG.State) : String :=
+  s!"{mq s .nodeCount} {mq s .edgeCount} {mq s .nodeBound} {mq s .edgeBound} {mq s .nodeBound}"
+
+def mNidx (s : SG.State) : String := s!"{mq s .nodeIndices}|{mqRev s .nodeIndices}|{mq s .nodeIndices}"
+def mEidx (s : SG.State) : String := s!"{mq s .edgeIndices}|{mqRev s .edgeIndices}"
 
 def mWts (s : SG.State) : String :=
   s!"{showInts ((nodeReferences s).map (·.2))}|{showInts ((edgeReferences s).map (·.w))}"
 
 def mNw (s : SG.State) (k : Nat) : String :=
   let l := List.range k
-  let ws := l.map fun i => match nodeWeight s i with | some w => toString w | none => "x"
-  let cs := l.map fun i => if containsNode s i then "1" else "0"
-  s!"{showL ws}|{showL cs}"
+  s!"{showL (l.map fun i => mq s (.nodeWeight i))}|{showL (l.map fun i => mq s (.containsNode i))}"
 
 def mEw (s : SG.State) (k : Nat) : String :=
-  showL ((List.range k).map fun e =>
-    let w := match edgeWeight s e with | some w => toString w | none => "x"
-    let p := match edgeEndpoints s e with | some (a, b) => s!"{a}:{b}" | none => "x"
-    s!"{w}/{p}")
+  showL ((List.range k).map fun e => s!"{mq s (.edgeWeight e)}/{mq s (.edgeEndpoints e)}")
 
 def joinSemi (l : List String) : String := if l.isEmpty then "-" else String.intercalate ";" l
 
 def mAdj (s : SG.State) (k : Nat) : String :=
   joinSemi ((List.range k).map fun i =>
-    String.intercalate "/" [showF showNats (neighbors s i), showF showNats (neighborsDirected s i 0),
-      showF showNats (neighborsDirected s i 1), showF showNats (neighborsUndirected s i)])
+    String.intercalate "/" [mq s (.neighbors i), mq s (.neighborsDirected i false), mq s (.neighborsDirected i true),
+      mq s (.neighborsUndirected i)])
 
 def mInc (s : SG.State) (k : Nat) : String :=
   joinSemi ((List.range k).map fun i =>
-    String.intercalate "/" [showF showERefs (edgesDirected s i false), showF showERefs (edgesDirected s i false),
-      showF showERefs (edgesDirected s i true)])
+    String.intercalate "/" [mq s (.edges i), mq s (.edgesDirected i false), mq s (.edgesDirected i true)])
 
 def mWalk (s : SG.State) (k : Nat) : String :=
   joinSemi ((List.range k).map fun i =>
-    String.intercalate "/" [showF showPairs (walker s i 0), showF showPairs (walker s i 1), showF showPairs (walker s i 2)])
+    String.intercalate "/" [mq s (.walker i 0), mq s (.walker i 1), mq s (.walker i 2)])
 
-def mExt (s : SG.State) : String := s!"{showNats (externals s 0)}|{showNats (externals s 1)}"
+def mExt (s : SG.State) : String := s!"{mq s (.externals false)}|{mq s (.externals true)}"
 
 def mPairs (s : SG.State) (ids : List Nat) : String :=
   joinSemi (ids.flatMap fun a => ids.map fun b =>
-    let fe := showF (fun o => match o with | some e => toString e | none => "x") (findEdge s a b)
-    let feu := showF (fun o => match o with
-      | some (e, k) => toString e ++ (if k = 0 then ">" else "<") | none => "x") (findEdgeUndirected s a b)
-    let ce := showF (fun o : Option Nat => if o.isSome then "1" else "0") (findEdge s a b)
-    let ec := showF showERefs (edgesConnecting s a b)
-    String.intercalate "/" [fe, feu, ce, ec])
+    String.intercalate "/" [mq s (.findEdge a b), mq s (.findEdgeUndirected a b), mq s (.containsEdge a b),
+      mq s (.edgesConnecting a b)])
 
-def mEndq (s : SG.State) : String :=
-  let e := s.fin
-  String.intercalate " " [
-    (match nodeWeight s e with | some w => toString w | none => "x"),
-    (if containsNode s e then "1" else "0"),
-    showF showNats (neighbors s e), showF showNats (neighborsUndirected s e),
-    showF showERefs (edgesDirected s e false), showF showERefs (edgesDirected s e true),
-    (match edgeWeight s e with | some w => toString w | none => "x"),
-    (match edgeEndpoints s e with | some (a, b) => s!"{a}:{b}" | none => "x"),
-    showF (fun o => match o with | some x => toString x | none => "x") (findEdge s e 0),
-    showF (fun o => match o with | some x => toString x | none => "x") (findEdge s 0 e),
-    showF showPairs (walker s e 2)]
+/-- the queries of the `d.endq` line: everything asked about the `end()` index -/
+def endQueries (e : Nat) : List (String × Query) :=
+  [("node_weight(end)", .nodeWeight e), ("contains_node(end)", .containsNode e), ("neighbors(end)", .neighbors e),
+   ("neighbors_undirected(end)", .neighborsUndirected e), ("edges_directed(end, Outgoing)", .edgesDirected e false),
+   ("edges_directed(end, Incoming)", .edgesDirected e true), ("edge_weight(end)", .edgeWeight e),
+   ("edge_endpoints(end)", .edgeEndpoints e), ("find_edge(end, 0)", .findEdge e 0), ("find_edge(0, end)", .findEdge 0 e),
+   ("neighbors_undirected(end).detach()", .walker e 2)]
+
+def mEndq (s : SG.State) : String := String.intercalate " " ((endQueries s.fin).map fun p => mq s p.2)
 
 def mToGraph (s : SG.State) : String :=
   match toGraph s with
@@ -173,7 +240,7 @@ def mToGraph (s : SG.State) : String :=
       showF showNats (neighborsUndirected { g with debug := false } i))
     s!"{ws}|{es}|{nb}"
 
-/-! ### spec-level judges of the dump lines (on the IMPLEMENTATION's answer) -/
+/-! ### spec-level judges of the dump lines (on the IMPLEMENTATION's answer; every query through `jq`) -/
 
 def specNodeToks (sp : Spec) : List String := sp.nodeRefs.map fun (i, w) => s!"{i}:{w}"
 def specEdgeToks (sp : Spec) : List String :=
@@ -182,26 +249,23 @@ def specEdgeToks (sp : Spec) : List String :=
 def part (s : String) (i : Nat) (sep : String := "|") : String := nth (s.splitOn sep) i
 
 def jNodes (sp : Spec) (impl : String) : Option String :=
-  let want := specNodeToks sp
-  if !sameMS (toks (part impl 0)) want then some s!"node_references does not list the live nodes {showL want}"
-  else if !sameMS (toks (part impl 1)) want then some s!"node_references().rev() does not list the live nodes {showL want}"
-  else none
+  firstWhy [jq sp "node_references" .nodeReferences (part impl 0), jq sp "node_references().rev()" .nodeReferences (part impl 1)]
 
 def jEdges (sp : Spec) (impl : String) : Option String :=
-  let want := specEdgeToks sp
-  let c := fun s => (toks s).map (canonTok sp.directed 1)
-  if !sameMS (c (part impl 0)) want then some s!"edge_references does not list the live edges {showL want}"
-  else if !sameMS (c (part impl 1)) want then some s!"edge_references().rev() does not list the live edges {showL want}"
-  else none
+  firstWhy [jq sp "edge_references" .edgeReferences (part impl 0), jq sp "edge_references().rev()" .edgeReferences (part impl 1)]
 
 def jCounts (sp : Spec) (impl : String) : Option String :=
   let p := splitWords impl
-  if natOf (nth p 0) ≠ sp.nodeCount then some s!"node_count {nth p 0} but {sp.nodeCount} live nodes"
-  else if natOf (nth p 1) ≠ sp.edgeCount then some s!"edge_count {nth p 1} but {sp.edgeCount} live edges"
-  else if natOf (nth p 2) ≠ sp.nodeBound then some s!"node_bound {nth p 2}, last live node + 1 = {sp.nodeBound}"
-  else if natOf (nth p 3) ≠ sp.edgeBound then some s!"edge_bound {nth p 3}, last live edge + 1 = {sp.edgeBound}"
-  else if natOf (nth p 4) ≠ sp.nodeBound then some s!"visit_map has {nth p 4} slots, last live node + 1 = {sp.nodeBound}"
-  else none
+  firstWhy [jq sp "node_count" .nodeCount (nth p 0), jq sp "edge_count" .edgeCount (nth p 1),
+    jq sp "node_bound" .nodeBound (nth p 2), jq sp "edge_bound" .edgeBound (nth p 3),
+    if natOf (nth p 4) ≠ sp.nodeBound then some s!"visit_map has {nth p 4} slots, last live node + 1 = {sp.nodeBound}" else none]
+
+def jNidx (sp : Spec) (impl : String) : Option String :=
+  firstWhy [jq sp "node_indices" .nodeIndices (part impl 0), jq sp "node_indices().rev()" .nodeIndices (part impl 1),
+    jq sp "node_identifiers" .nodeIndices (part impl 2)]
+
+def jEidx (sp : Spec) (impl : String) : Option String :=
+  firstWhy [jq sp "edge_indices" .edgeIndices (part impl 0), jq sp "edge_indices().rev()" .edgeIndices (part impl 1)]
 
 def jIdx (what : String) (want : List Nat) (impl : String) (n : Nat) : Option String :=
   let w := want.map toString
@@ -219,25 +283,16 @@ def jWts (sp : Spec) (impl : String) : Option String :=
 def jNw (sp : Spec) (k : Nat) (impl : String) : Option String :=
   let ws := toks (part impl 0)
   let cs := toks (part impl 1)
-  match (List.range k).find? (fun i =>
-    let want := match sp.node i with | some w => toString w | none => "x"
-    nth ws i != want || nth cs i != (if sp.nodeLive i then "1" else "0")) with
-  | some i => some s!"node_weight/contains_node of index {i}: [{nth ws i}/{nth cs i}], reference has {repr (sp.node i)}"
-  | none => if ws.length ≠ k then some "node_weight line has the wrong length" else none
+  if ws.length ≠ k || cs.length ≠ k then some "node_weight line has the wrong length"
+  else (List.range k).findSome? fun i =>
+    firstWhy [jq sp s!"node_weight({i})" (.nodeWeight i) (nth ws i), jq sp s!"contains_node({i})" (.containsNode i) (nth cs i)]
 
 def jEw (sp : Spec) (k : Nat) (impl : String) : Option String :=
   let ts := toks impl
-  match (List.range k).find? (fun e =>
-    let want := match sp.edge e with
-      | some ed => canonTok sp.directed 0 s!"{ed.a}:{ed.b}" ++ "/" ++ toString ed.w
-      | none => "x/x"
+  if ts.length ≠ k then some "edge_weight line has the wrong length"
+  else (List.range k).findSome? fun e =>
     let t := nth ts e
-    let got := if part t 1 "/" == "x" then "x/" ++ part t 0 "/" else canonTok sp.directed 0 (part t 1 "/") ++ "/" ++ part t 0 "/"
-    got != want) with
-  | some e => some s!"edge_weight/edge_endpoints of index {e}: [{nth ts e}], reference has {repr (sp.edge e)}"
-  | none => if ts.length ≠ k then some "edge_weight line has the wrong length" else none
-
-def specWeight (sp : Spec) (e : Nat) : Int := match sp.edge e with | some ed => ed.w | none => 0
+    firstWhy [jq sp s!"edge_weight({e})" (.edgeWeight e) (part t 0 "/"), jq sp s!"edge_endpoints({e})" (.edgeEndpoints e) (part t 1 "/")]
 
 /-- per-node line: `check i fields` returns a reason or none -/
 def jPerNode (k : Nat) (impl : String) (check : Nat → List String → Option String) : Option String :=
@@ -247,33 +302,23 @@ def jPerNode (k : Nat) (impl : String) (check : Nat → List String → Option S
 
 def jAdj (sp : Spec) (k : Nat) (impl : String) : Option String :=
   jPerNode k impl fun i f =>
-    let want := fun d => ((sp.incident i d).map (fun p => toString p.2))
-    if !sameMS (toks (nth f 0)) (want 0) then some s!"neighbors({i}) = {nth f 0}, reference {showL (want 0)}"
-    else if !sameMS (toks (nth f 1)) (want 0) then some s!"neighbors_directed({i}, Outgoing) = {nth f 1}, reference {showL (want 0)}"
-    else if !sameMS (toks (nth f 2)) (want 1) then some s!"neighbors_directed({i}, Incoming) = {nth f 2}, reference {showL (want 1)}"
-    else if !sameMS (toks (nth f 3)) (want 2) then some s!"neighbors_undirected({i}) = {nth f 3}, reference {showL (want 2)}"
-    else none
+    firstWhy [jq sp s!"neighbors({i})" (.neighbors i) (nth f 0),
+      jq sp s!"neighbors_directed({i}, Outgoing)" (.neighborsDirected i false) (nth f 1),
+      jq sp s!"neighbors_directed({i}, Incoming)" (.neighborsDirected i true) (nth f 2),
+      jq sp s!"neighbors_undirected({i})" (.neighborsUndirected i) (nth f 3)]
 
 def jInc (sp : Spec) (k : Nat) (impl : String) : Option String :=
   jPerNode k impl fun i f =>
-    let out := (sp.incident i 0).map fun (e, o) => s!"{e}:{i}:{o}:{specWeight sp e}"
-    let inn := (sp.incident i 1).map fun (e, o) => s!"{e}:{o}:{i}:{specWeight sp e}"
-    if !sameMS (toks (nth f 0)) out then some s!"edges({i}) = {nth f 0}, reference {showL out}"
-    else if !sameMS (toks (nth f 1)) out then some s!"edges_directed({i}, Outgoing) = {nth f 1}, reference {showL out}"
-    else if !sameMS (toks (nth f 2)) inn then some s!"edges_directed({i}, Incoming) = {nth f 2}, reference {showL inn}"
-    else none
+    firstWhy [jq sp s!"edges({i})" (.edges i) (nth f 0),
+      jq sp s!"edges_directed({i}, Outgoing)" (.edgesDirected i false) (nth f 1),
+      jq sp s!"edges_directed({i}, Incoming)" (.edgesDirected i true) (nth f 2)]
 
 def jWalk (sp : Spec) (k : Nat) (impl : String) : Option String :=
   jPerNode k impl fun i f =>
-    let want := fun d => (sp.incident i d).map fun (e, o) => s!"{e}:{o}"
-    match (List.range 3).find? (fun d => !sameMS (toks (nth f d)) (want d)) with
-    | some d => some s!"detached walker {d} of node {i} = {nth f d}, reference {showL (want d)}"
-    | none => none
+    (List.range 3).findSome? fun d => jq sp s!"detached walker {d} of node {i}" (.walker i d) (nth f d)
 
 def jExt (sp : Spec) (impl : String) : Option String :=
-  match (List.range 2).find? (fun d => !sameMS (toks (part impl d)) ((sp.externals d).map toString)) with
-  | some d => some s!"externals({d}) = {part impl d}, reference {showNats (sp.externals d)}"
-  | none => none
+  firstWhy [jq sp "externals(Outgoing)" (.externals false) (part impl 0), jq sp "externals(Incoming)" (.externals true) (part impl 1)]
 
 def specConn (sp : Spec) (a b : Nat) : List (Nat × SEdge) :=
   if sp.nodeLive a && sp.nodeLive b then sp.edgeRefs.filter (fun (_, e) => sp.connects e a b) else []
@@ -285,28 +330,16 @@ def jPairs (sp : Spec) (ids : List Nat) (impl : String) : Option String :=
   (List.range ps.length).findSome? fun j =>
     let (a, b) := ps.getD j (0, 0)
     let f := (nth ts j).splitOn "/"
-    let conn := specConn sp a b
-    let ids1 := conn.map (·.1)
-    let back := (specConn sp b a).map (·.1)
-    let fe := nth f 0
-    let feu := nth f 1
-    let bad : Option String :=
-      if fe == "x" then (if conn.isEmpty then none else some s!"find_edge({a},{b}) = None but edge {ids1.head!} connects them")
-      else if ids1.contains (natOf fe) then none else some s!"find_edge({a},{b}) = {fe} which does not connect them"
-    let bad := bad.orElse fun _ =>
-      if feu == "x" then (if conn.isEmpty && back.isEmpty then none else some s!"find_edge_undirected({a},{b}) = None but an edge connects them")
-      else
-        let e := natOf (String.ofList (feu.toList.filter Char.isDigit))
-        let fwd := feu.endsWith ">"
-        if !sp.directed then (if ids1.contains e then none else some s!"find_edge_undirected({a},{b}) = {feu}: not an edge between them")
-        else if fwd && ids1.contains e then none
-        else if !fwd && back.contains e then none
-        else some s!"find_edge_undirected({a},{b}) = {feu}: edge/direction wrong"
-    let bad := bad.orElse fun _ =>
-      if (nth f 2 == "1") != !conn.isEmpty then some s!"contains_edge({a},{b}) = {nth f 2}" else none
-    bad.orElse fun _ =>
-      let want := conn.map fun (e, ed) => s!"{e}:{a}:{b}:{ed.w}"
-      if sameMS (toks (nth f 3)) want then none else some s!"edges_connecting({a},{b}) = {nth f 3}, reference {showL want}"
+    firstWhy [jq sp s!"find_edge({a},{b})" (.findEdge a b) (nth f 0),
+      jq sp s!"find_edge_undirected({a},{b})" (.findEdgeUndirected a b) (nth f 1),
+      jq sp s!"contains_edge({a},{b})" (.containsEdge a b) (nth f 2),
+      jq sp s!"edges_connecting({a},{b})" (.edgesConnecting a b) (nth f 3)]
+
+def jEndq (sp : Spec) (fin : Nat) (impl : String) : Option String :=
+  let f := splitWords impl
+  let qs := endQueries fin
+  if f.length ≠ qs.length then some "end() line has the wrong length"
+  else (qs.zip f).findSome? fun (p, t) => jq sp p.1 p.2 t
 
 def jToGraph (sp : Spec) (impl : String) : Option String :=
   let ws := (toks (part impl 0)).map intOf
@@ -374,6 +407,59 @@ pick the error a documented panic stands for -/
 def normPanic (impl : String) (errWords : List String) : List String :=
   if impl == "panic" then errWords else ["ok", impl]
 
+/-- answer of a panicking variant as text -/
+def showP : POut → String
+  | .idx i => toString i
+  | .weight w => toString w
+  | .unit => "ok"
+  | .panic => "panic"
+
+/-- **exact panic judge**: the implementation must panic iff the documented panic condition `Spec.panics` holds in the
+reference; `okJudge` judges a non-panicking answer -/
+def jPanic (d : DState) (name : String) (c : PCall) (impl : String) (okJudge : Unit → Spec × Option String) :
+    Spec × Option String :=
+  let must := d.sp.panics d.fin c
+  if impl == "panic" then
+    (d.sp, if must then none else some s!"{name} panicked although its documented panic condition does not hold")
+  else
+    let (sp, why) := okJudge ()
+    (sp, if must then some s!"{name} answered [{impl}] although its documented panic condition holds (it must panic)" else why)
+
+/-- the edges of an `extend_with_edges` request that are processed before the first one that does not fit, and the endpoints
+of the offending edge that are created nevertheless (`SpecExtendP`) -/
+def extendPrefix (fin : Nat) : Nat → List (Nat × Nat × Int) → List (Nat × Nat × Int) × List Nat
+  | _, [] => ([], [])
+  | ec, (a, b, w) :: rest =>
+    if a ≥ fin then ([], [])
+    else if b ≥ fin then ([], [a])
+    else if ec ≥ fin then ([], [a, b])
+    else
+      let (p, x) := extendPrefix fin (ec + 1) rest
+      ((a, b, w) :: p, x)
+
+def ensureSp (sp : Spec) (a : Nat) : Spec := if sp.nodeLive a then sp else sp.addNodeAt a 0
+
+def parseElems (s : String) : List Elem :=
+  (toks s).filterMap fun t =>
+    match t.splitOn ":" with
+    | ["n", w] => some (.node (intOf w))
+    | ["e", a, b, w] => some (.edge (natOf a) (natOf b) (intOf w))
+    | _ => none
+
+/-- G-A: the index arguments of a request (they must be representable in the index type: `NodeIndex::new` would wrap) -/
+def indexArgs (req : List String) : List Nat :=
+  match req with
+  | [f, a, b, _] =>
+    if f == "try_add_edge" || f == "add_edge" || f == "try_update_edge" || f == "update_edge" then [natOf a, natOf b] else []
+  | ["remove_node", a] | ["remove_edge", a] => [natOf a]
+  | [f, a, _] =>
+    if f == "node_weight_mut" || f == "index_mut_node" || f == "edge_weight_mut" || f == "index_mut_edge" then [natOf a] else []
+  | ["index_twice", _, i, j, _, _] => [natOf i, natOf j]
+  | ["retain_nodes", rm] | ["retain_edges", rm] => parseNats rm
+  | ["filter_map", dn, de, _, _] => parseNats dn ++ parseNats de
+  | ["extend_with_edges", es] | ["from_edges", es] => (parseTriples es).flatMap fun (a, b, _) => [a, b]
+  | _ => []
+
 def verdict (spec : Option String) (model impl : String) : String :=
   match spec with
   | some why => s!"SPECFAIL {why}"
@@ -391,11 +477,6 @@ def showRes (r : Except GErr Nat) : String :=
   match r with
   | .ok i => s!"ok {i}"
   | .error e => s!"err {showErr e}"
-
-def showResPanic (r : Except GErr Nat) : String :=
-  match r with
-  | .ok i => toString i
-  | .error _ => "panic"
 
 /-- mark the outcome of a call for the "error ⇒ unchanged" clause -/
 def DState.after (d : DState) (changed isErr : Bool) : DState :=
@@ -452,16 +533,22 @@ def resyncOk (d : DState) (nw : Spec) : Option String :=
       some "Graph round trip of a graph without vacancies changed indices"
     else none
   else
-    -- panicking extend_with_edges: nothing that existed may be lost or altered; additions come from the request
+    -- panicking extend_with_edges (`SpecExtendP`): exactly the processed prefix has been inserted, of the offending edge only
+    -- the valid endpoints have been created; nothing that existed is lost or altered
+    let req := parseTriples (showL d.pendingEdges)
+    let (pre, extra) := extendPrefix d.fin old.edgeCount req
+    let sp1 := (pre.flatMap (fun (a, b, _) => [a, b]) ++ extra).foldl ensureSp old
+    let k := max sp1.nodes.length nw.nodes.length
     if old.nodeRefs.any (fun (i, w) => nw.node i != some w) then some "a node was lost or altered by a panicking extend_with_edges"
     else if old.edgeRefs.any (fun (i, e) => (nw.edge i).map (fun x => canonTok old.directed 0 s!"{x.a}:{x.b}:{x.w}") !=
         some (canonTok old.directed 0 s!"{e.a}:{e.b}:{e.w}")) then some "an edge was lost or altered by a panicking extend_with_edges"
-    else if nw.nodeRefs.any (fun (i, w) => !old.nodeLive i && w != 0) then some "panicking extend_with_edges created a node with a non-default weight"
-    else
-      let added := (nw.edgeRefs.filter fun (i, _) => !old.edgeLive i).map fun (_, e) => canonTok old.directed 0 s!"{e.a}:{e.b}:{e.w}"
-      let req := d.pendingEdges.map (canonTok old.directed 0)
-      if added.any (fun t => !req.contains t) || added.length > req.length then some "panicking extend_with_edges created edges that were not requested"
-      else none
+    else match (List.range k).find? (fun i => nw.node i != sp1.node i) with
+      | some i => some s!"panicking extend_with_edges: node {i} is {repr (nw.node i)}, the processed prefix of the request gives {repr (sp1.node i)}"
+      | none =>
+        let added := (nw.edgeRefs.filter fun (i, _) => !old.edgeLive i).map fun (_, e) => canonTok old.directed 0 s!"{e.a}:{e.b}:{e.w}"
+        let want := pre.map fun (a, b, w) => canonTok old.directed 0 s!"{a}:{b}:{w}"
+        if !sameMS added want then some s!"panicking extend_with_edges left the new edges {showL added}, the processed prefix of the request is {showL want}"
+        else none
 
 /-- handle one dump line: rotate/compare/judge -/
 def dumpLine (d : DState) (key : String) (impl : String) (model : String) (judge : Spec → Option String) : DState × String :=
@@ -483,6 +570,10 @@ def step (d : DState) (req : List String) (impl : String) : DState × String :=
     | .ok (s, o) => (s, o)
     | .error f => (d.st, showFault f)
   let implW := splitWords impl
+  -- G-A: index arguments must be representable in the index type (`NodeIndex::new` would wrap otherwise)
+  match (indexArgs req).find? (fun i => i > d.fin) with
+  | some i => (d, s!"SPECFAIL generator left the proved range: index argument {i} is not representable (Ix::max = {d.fin})")
+  | none =>
   match req with
   | ["case", k, dir, w, dbg] =>
     let (fin, nl) := finOf w
@@ -492,6 +583,23 @@ def step (d : DState) (req : List String) (impl : String) : DState × String :=
   | ["new", _] =>
     ({ d with st := SG.empty d.st.directed d.fin d.noLimit d.st.debug, sp := SGSpec.empty d.st.directed,
               dirty := true }, verdict (expect "constructor" "ok" impl) "ok" impl)
+  | ["from_elements", els] =>
+    let els := parseElems els
+    if !elemsInRangeB d.fin els then
+      (d, s!"SPECFAIL generator left the proved range: from_elements names an endpoint beyond Ix::max = {d.fin}")
+    else
+    let s0 := SG.empty d.st.directed d.fin d.noLimit d.st.debug
+    let (st, m) := runM (match construct d.st.directed d.fin d.noLimit d.st.debug (.fromElements els) with
+      | .ok (some g) => .ok (g, "ok")
+      | .ok none => .ok (s0, "panic")     -- the graph under construction is lost; the harness continues on an empty one
+      | .error f => .error f)
+    let want := fromElementsSpec d.st.directed d.fin els (SGSpec.empty d.st.directed)
+    let why := match want with
+      | some _ => if impl == "ok" then none else some s!"from_elements answered [{impl}] on a valid element list"
+      | none => if impl == "panic" then none else
+          some s!"from_elements answered [{impl}] although an edge names a node that does not exist / the index type is exhausted (documented panic)"
+    ({ d with st := st, sp := if impl == "ok" then want.getD (SGSpec.empty d.st.directed) else SGSpec.empty d.st.directed,
+              dirty := true, errSince := false }, verdict why m impl)
   | ["from_graph", n, es] =>
     let n := natOf n
     let l := parseTriples es
@@ -508,10 +616,12 @@ def step (d : DState) (req : List String) (impl : String) : DState × String :=
   | ["try_add_node", w] | ["add_node", w] =>
     let w := intOf w
     let isTry := req.head! == "try_add_node"
-    let (st, m) := runM (match tryAddNode d.st w with
-      | .ok (s, r) => .ok (s, if isTry then showRes r else showResPanic r) | .error f => .error f)
+    let (st, m) := runM (if isTry then (match tryAddNode d.st w with
+        | .ok (s, r) => .ok (s, showRes r) | .error f => .error f)
+      else (match pstep d.st (.addNode w) with
+        | .ok (s, o) => .ok (s, showP o) | .error f => .error f))
     let r := if isTry then implW else normPanic impl ["err", "NodeIxLimit"]
-    let (sp, why) := jAddNode d w r
+    let (sp, why) := if isTry then jAddNode d w r else jPanic d "add_node" (.addNode w) impl fun _ => jAddNode d w r
     (({ d with st := st, sp := sp }).after (r.head! == "ok") (r.head! == "err"), verdict why m impl)
   | [f, a, b, w] =>
     let a := natOf a
@@ -521,12 +631,16 @@ def step (d : DState) (req : List String) (impl : String) : DState × String :=
     | "try_add_edge" | "add_edge" | "try_update_edge" | "update_edge" =>
       let isTry := f.startsWith "try_"
       let isUpd := f.endsWith "update_edge"
-      let (st, m) := runM (match (if isUpd then tryUpdateEdge d.st a b wi else tryAddEdge d.st a b wi) with
-        | .ok (s, r) => .ok (s, if isTry then showRes r else showResPanic r) | .error x => .error x)
+      let pc : PCall := if isUpd then .updateEdge a b wi else .addEdge a b wi
+      let (st, m) := runM (if isTry then (match (if isUpd then tryUpdateEdge d.st a b wi else tryAddEdge d.st a b wi) with
+          | .ok (s, r) => .ok (s, showRes r) | .error x => .error x)
+        else (match pstep d.st pc with
+          | .ok (s, o) => .ok (s, showP o) | .error x => .error x))
       let miss := missingOf d.sp a b
       let errW := if !miss.isEmpty then ["err", "NodeMissed", toString miss.head!] else ["err", "EdgeIxLimit"]
       let r := if isTry then implW else normPanic impl errW
-      let (sp, why) := if isUpd then jUpdateEdge d a b wi r else jAddEdge d a b wi r
+      let okJ := fun (_ : Unit) => if isUpd then jUpdateEdge d a b wi r else jAddEdge d a b wi r
+      let (sp, why) := if isTry then okJ () else jPanic d f pc impl okJ
       (({ d with st := st, sp := sp }).after (r.head! == "ok") (r.head! == "err"), verdict why m impl)
     | _ => bad
   | ["remove_node", a] =>
@@ -555,20 +669,30 @@ def step (d : DState) (req : List String) (impl : String) : DState × String :=
     let a := natOf a
     let wi := intOf w
     match f with
-    | "node_weight_mut" | "index_mut_node" =>
+    | "node_weight_mut" =>
       let (st, b) := setNodeWeight d.st a wi
-      let yes := if f == "node_weight_mut" then "some" else "ok"
-      let no := if f == "node_weight_mut" then "none" else "panic"
-      let want := if d.sp.nodeLive a then yes else no
-      (({ d with st := st, sp := d.sp.setNodeWeight a wi }).after (impl == yes) false,
-        verdict (expect s!"{f}({a})" want impl) (if b then yes else no) impl)
-    | "edge_weight_mut" | "index_mut_edge" =>
+      let want := if d.sp.nodeLive a then "some" else "none"
+      (({ d with st := st, sp := d.sp.setNodeWeight a wi }).after (impl == "some") false,
+        verdict (expect s!"{f}({a})" want impl) (if b then "some" else "none") impl)
+    | "edge_weight_mut" =>
       let (st, b) := setEdgeWeight d.st a wi
-      let yes := if f == "edge_weight_mut" then "some" else "ok"
-      let no := if f == "edge_weight_mut" then "none" else "panic"
-      let want := if d.sp.edgeLive a then yes else no
-      (({ d with st := st, sp := d.sp.setEdgeWeight a wi }).after (impl == yes) false,
-        verdict (expect s!"{f}({a})" want impl) (if b then yes else no) impl)
+      let want := if d.sp.edgeLive a then "some" else "none"
+      (({ d with st := st, sp := d.sp.setEdgeWeight a wi }).after (impl == "some") false,
+        verdict (expect s!"{f}({a})" want impl) (if b then "some" else "none") impl)
+    | "index_mut_node" | "index_mut_edge" =>
+      -- `let _ = g[i]; g[i] = w`: `Index` then `IndexMut`, each `unwrap`s
+      let isN := f == "index_mut_node"
+      let rd : PCall := if isN then .indexNode a else .indexEdge a
+      let wr : PCall := if isN then .indexMutNode a wi else .indexMutEdge a wi
+      let (st, m) := runM (match pstep d.st rd with
+        | .error x => .error x
+        | .ok (_, .panic) => .ok (d.st, "panic")
+        | .ok (s1, _) => match pstep s1 wr with
+          | .ok (s2, o) => .ok (s2, showP o) | .error x => .error x)
+      let (sp, why) := jPanic d f wr impl fun _ =>
+        (if isN then d.sp.setNodeWeight a wi else d.sp.setEdgeWeight a wi,
+         if d.sp.panics d.fin rd then some s!"Index on an absent element did not panic" else expect s!"{f}({a})" "ok" impl)
+      (({ d with st := st, sp := sp }).after (impl == "ok") false, verdict why m impl)
     | "mapw" => bad   -- handled above
     | _ => bad
   | ["bump_nodes", c] =>
@@ -586,21 +710,12 @@ def step (d : DState) (req : List String) (impl : String) : DState × String :=
     let w2 := intOf w2
     let n1 := kind.startsWith "n"
     let n2 := kind.endsWith "n"
-    -- model: assert!(kinds differ || i != j), then the two `index_mut(..)` (unwrap)
-    let mHas := fun (isN : Bool) (x : Nat) => if isN then (nodeWeight d.st x).isSome else (edgeWeight d.st x).isSome
-    let mOk := !(n1 == n2 && i == j) && mHas n1 i && mHas n2 j
-    let st := if mOk then
-        let s1 := if n1 then (setNodeWeight d.st i w1).1 else (setEdgeWeight d.st i w1).1
-        if n2 then (setNodeWeight s1 j w2).1 else (setEdgeWeight s1 j w2).1
-      else d.st
-    let sHas := fun (isN : Bool) (x : Nat) => if isN then d.sp.nodeLive x else d.sp.edgeLive x
-    let sOk := !(n1 == n2 && i == j) && sHas n1 i && sHas n2 j
-    let sp := if impl == "ok" then
-        let s1 := if n1 then d.sp.setNodeWeight i w1 else d.sp.setEdgeWeight i w1
-        if n2 then s1.setNodeWeight j w2 else s1.setEdgeWeight j w2
-      else d.sp
-    (({ d with st := st, sp := sp }).after (impl == "ok") false,
-      verdict (expect "index_twice_mut" (if sOk then "ok" else "panic") impl) (if mOk then "ok" else "panic") impl)
+    let pc : PCall := .indexTwice n1 n2 i j w1 w2
+    let (st, m) := runM (match pstep d.st pc with
+      | .ok (s, o) => .ok (s, showP o) | .error x => .error x)
+    let (sp, why) := jPanic d "index_twice_mut" pc impl fun _ =>
+      ((d.sp.setWeight n1 i w1).setWeight n2 j w2, expect "index_twice_mut" "ok" impl)
+    (({ d with st := st, sp := sp }).after (impl == "ok") false, verdict why m impl)
   | ["reverse"] =>
     (({ d with st := reverse d.st, sp := d.sp.reverse }).after true false,
       verdict (expect "reverse" "ok" impl) "ok" impl)
@@ -643,17 +758,20 @@ def step (d : DState) (req : List String) (impl : String) : DState × String :=
     let (st, m) := runM (match extendWithEdges st0 l with
       | .ok (s, p) => .ok (s, (if p then "panic" else "ok") ++ " new=" ++ newEdgeToks st0 s) | .error x => .error x)
     let newToks := toks ((nth implW 1).drop 4).toString
+    -- `C02_extend_general`: the call completes iff the request fits the index type
+    let fits := extendFits d.fin d0.sp.edgeCount l
     if nth implW 0 == "ok" then
       let (sp, why) := jExtend d0 l newToks
+      let why := if fits then why else
+        some "extend_with_edges completed although the request does not fit the index type (it must panic)"
       (({ d0 with st := st, sp := sp }).after true false, verdict why m impl)
     else
-      -- a panic is legitimate only when the request exceeds the index type
-      let legit := l.any (fun (a, b, _) => a ≥ d.fin || b ≥ d.fin) || (!d.noLimit && d0.sp.edgeCount + l.length > d.fin)
-      let why := if legit then none else some "extend_with_edges panicked on a request that fits the index type"
-      -- a panicking `from_edges` loses the graph under construction; the harness continues on an empty one
-      let st := if fresh then st0 else st
-      (({ d0 with st := st, resync := 2, oldSp := d0.sp, pendingEdges := toks es }).after true false,
-        verdict why (if fresh then (if m.startsWith "panic" then "panic new=-" else m) else m) impl)
+      let why := if !fits then none else some "extend_with_edges panicked on a request that fits the index type"
+      if fresh then
+        -- a panicking `from_edges` loses the graph under construction; the harness continues on an empty one
+        (({ d0 with st := st0 }).after true false, verdict why (if m.startsWith "panic" then "panic new=-" else m) impl)
+      else
+        (({ d0 with st := st, resync := 2, oldSp := d0.sp, pendingEdges := toks es }).after true false, verdict why m impl)
   | ["compact"] =>
     let (st, m) := runM (match compact d.st with | .ok s => .ok (s, "ok") | .error x => .error x)
     (({ d with st := st, resync := 1, oldSp := d.sp }).after true false, verdict (expect "Graph round trip" "ok" impl) m impl)
@@ -675,8 +793,8 @@ def step (d : DState) (req : List String) (impl : String) : DState × String :=
       ({ d with resync := 0, curDump := ("d.edges", impl) :: d.curDump }, s!"SPECFAIL {nth d.pendingEdges 0}")
     else dumpLine d "d.edges" impl (mEdges d.st) (fun sp => jEdges sp impl)
   | ["d.counts"] => dumpLine d "d.counts" impl (mCounts d.st) (fun sp => jCounts sp impl)
-  | ["d.nidx"] => dumpLine d "d.nidx" impl (mNidx d.st) (fun sp => jIdx "node_indices" sp.nodeIds impl 3)
-  | ["d.eidx"] => dumpLine d "d.eidx" impl (mEidx d.st) (fun sp => jIdx "edge_indices" sp.edgeIds impl 2)
+  | ["d.nidx"] => dumpLine d "d.nidx" impl (mNidx d.st) (fun sp => jNidx sp impl)
+  | ["d.eidx"] => dumpLine d "d.eidx" impl (mEidx d.st) (fun sp => jEidx sp impl)
   | ["d.wts"] => dumpLine d "d.wts" impl (mWts d.st) (fun sp => jWts sp impl)
   | ["d.nw", k] => dumpLine d s!"d.nw {k}" impl (mNw d.st (natOf k)) (fun sp => jNw sp (natOf k) impl)
   | ["d.ew", k] => dumpLine d s!"d.ew {k}" impl (mEw d.st (natOf k)) (fun sp => jEw sp (natOf k) impl)
@@ -687,7 +805,7 @@ def step (d : DState) (req : List String) (impl : String) : DState × String :=
   | ["d.pairs", ids] =>
     dumpLine d s!"d.pairs {ids}" impl (mPairs d.st (parseNats ids)) (fun sp => jPairs sp (parseNats ids) impl)
   | ["d.endq"] =>
-    dumpLine d "d.endq" impl (mEndq d.st) (fun _ => expect "queries with the end() index" "x 0 - - - - x x x x -" impl)
+    dumpLine d "d.endq" impl (mEndq d.st) (fun sp => jEndq sp d.fin impl)
   | ["d.tograph"] => dumpLine d "d.tograph" impl (mToGraph d.st) (fun sp => jToGraph sp impl)
   | ["uncaught"] => (d, "SPECFAIL a call that is valid for every graph state (or a query of the generator) panicked")
   | _ => bad
